@@ -19,6 +19,8 @@ STATE_UNINTERPRETED = frozenset({'add_with_carry', 'shift_c', 'shift', 'asr_c', 
                                  'arm_expand_imm_c', 'arm_expand_imm', 'thumb_expand_imm_c', 'thumb_expand_imm',
                                  'signed_sat_q', 'unsigned_sat_q'})
 
+DATA_CLASSES = ('AddressDescriptor', 'FullAddress', 'MemoryAttributes', 'Permissions', 'TLBRecord')
+
 MOCK_ATOMS = {'is_external_abort': 'MOCK.external_abort', 'is_async_abort': 'MOCK.async_abort',
               'debug_exception': 'MOCK.debug_exception'}
 
@@ -31,6 +33,7 @@ class StatePolicy(decode.MachinePolicy):
         self.stubs = stubs or {}      # method name -> 'event' | callable(it, args, st, node) -> Value
         self.arch = arch
         self.events = []
+        self.nfresh = 0
 
     def attr(self, it, obj, attr, st):
         path, cls = obj[1], obj[2] if len(obj) > 2 else None
@@ -44,6 +47,8 @@ class StatePolicy(decode.MachinePolicy):
                 return V(('map', path + '.changed_registers'))
             if attr == 'event_register':
                 return V(self.sym(path + '.event_register', 1))
+            if attr in ('drbars', 'irbars'):
+                return V(('map', path + '.' + attr))
         if path.startswith('reset:') and attr == 'value':
             return V(self.sym('RESET.' + cls, 32))
         if cls == 'Configurations' and attr == 'arch_version' and self.arch is not None:
@@ -62,11 +67,26 @@ class StatePolicy(decode.MachinePolicy):
             if ci and ci[0].is_subclass_of('AbstractRegister') and not args:
                 # a freshly constructed register view holds its configured reset value
                 return V(('obj', 'reset:' + target[1], target[1]))
+            if ci and target[1] in DATA_CLASSES and not args and not kwargs:
+                # plain data holder: fresh object, __init__ interpreted so that its fields get their initial values
+                self.nfresh += 1
+                obj = ('obj', 'new:%s#%d' % (target[1], self.nfresh), target[1])
+                init = ci[0].find_method('__init__')
+                if init is not None:
+                    it.inline(init, [V(obj)], {}, st, node)
+                return V(obj)
         name = getattr(target, 'name', None)
         if name in MOCK_ATOMS and getattr(target, 'cls', None) is not None and target.cls.name == 'Registers':
             return V(Int([self.B.var(MOCK_ATOMS[name])]))
-        if name in self.stubs:
-            h = self.stubs[name]
+        qn = getattr(target, 'qualname', None)
+        key = qn if qn in self.stubs else (name if name in self.stubs else None)
+        if key is not None:
+            h = self.stubs[key]
+            if h == 'raise':
+                self.events.append((name, st.cond, args, node, dict(st.heap)))
+                it.outcomes.append(Outcome('raise', st.cond, 'stub:' + name, node, st.copy(), it.cur_func))
+                st.cond = 0
+                return V(NONE)
             if h == 'event':
                 self.events.append((name, st.cond, args, node, dict(st.heap)))
                 it.outcomes.append(Outcome('call', st.cond, (name, args), node, st.copy(), it.cur_func))
